@@ -188,6 +188,17 @@ impl Realizer {
             out.push(Operation::Create { uuid });
             local.apply(&MOp::Create(uuid));
         }
+        // the "status" property takes real status values, so that the working set is exercised
+        let value = if prop == "status" {
+            value.map(|v| match v.as_str() {
+                "x" => "pending".to_string(),
+                "y" => "completed".to_string(),
+                "z" => "recurring".to_string(),
+                _ => v,
+            })
+        } else {
+            value
+        };
         let old_value = local.0[&uuid].get(prop).cloned();
         out.push(Operation::Update {
             uuid,
@@ -431,6 +442,27 @@ impl World {
         Ok(())
     }
 
+    /// `Replica::sync` rebuilds the working set without renumbering: afterwards it lists exactly
+    /// the pending / recurring tasks, each once.
+    pub fn check_working_set_after_sync(&mut self, r: usize, when: &str) -> Result<(), Failure> {
+        let ws = self.reps[r].working_set();
+        let tasks = self.reps[r].tasks();
+        let want: BTreeSet<Uuid> = tasks
+            .0
+            .iter()
+            .filter(|(_, p)| matches!(p.get("status").map(|s| s.as_str()), Some("pending") | Some("recurring")))
+            .map(|(u, _)| *u)
+            .collect();
+        let got: Vec<Uuid> = ws.iter().flatten().copied().collect();
+        let got_set: BTreeSet<Uuid> = got.iter().copied().collect();
+        crate::ensure!(
+            got.len() == got_set.len() && got_set == want,
+            "working-set-after-sync",
+            "{when}: after a successful sync the working set of replica {r} is {ws:?} but the pending/recurring tasks are {want:?}"
+        );
+        Ok(())
+    }
+
     /// Sync every replica round-robin twice, then require: nothing left to send, every base
     /// version is the server's latest, all replicas equal, and equal to the chain replay.
     pub fn quiesce_and_check(&mut self) -> Result<Model, Failure> {
@@ -443,6 +475,7 @@ impl World {
                     )
                 })?;
                 self.check_replica_invariant(r, &format!("quiesce round {round}"))?;
+                self.check_working_set_after_sync(r, &format!("quiesce round {round}"))?;
             }
         }
         self.check_converged()
@@ -665,6 +698,7 @@ pub fn run_actions(
                     }
                 }
                 w.check_replica_invariant(r, &format!("after action {ai} (sync of replica {r})"))?;
+                w.check_working_set_after_sync(r, &format!("after action {ai} (sync of replica {r})"))?;
             }
         }
         // two replicas hold unsynced operations on the same task
